@@ -365,14 +365,16 @@ def _run(case, desper, res, tmp):
                         fail(at, 'nest-lost-older', f'nest_on_conflict: the '
                              f'handle previously at {key!r} is not '
                              'retrievable beneath the new one',
-                             list(older[0].rec), [list(b.rec) for b in beneath])
+                             list(older[0].rec), [list(b.rec) for b in beneath],
+                             key=key)
                         return
                     if len(beneath) + 1 < produced_now + len(older):
                         fail(at, 'nest-lost-older', f'nest_on_conflict: '
                              f'{produced_now} handles were built for {key!r} '
                              f'on top of {len(older)} older one(s) but only '
                              f'{len(beneath)} are beneath the visible one',
-                             produced_now + len(older) - 1, len(beneath))
+                             produced_now + len(older) - 1, len(beneath),
+                             key=key)
                         return
                 elif older and got is older[0]:
                     fail(at, 'older-still-visible', f'without nesting the '
@@ -435,7 +437,8 @@ def shrink(case):
 
 def classify(case, div):
     key = str(div.get('key') or '')
-    if div['kind'] in ('file-not-reachable', 'wrong-handle') and any(
+    if div['kind'] in ('file-not-reachable', 'wrong-handle',
+                       'nest-lost-older') and any(
             part.startswith('.') for part in key.split('/')):
         # (wrong-handle: the last rule that should have produced the key
         # skipped the hidden entry, an earlier rule's handle is still there)
